@@ -68,6 +68,37 @@ Section PREFIX.
     end.
 End PREFIX.
 
+(* ------------------------------------------------------------------ which node? (controller/middleware.go withTSAndSampleService)
+   The request's X-CH-DSN header names the node; without it (or with a name no service has) the static registry DRAWS a node
+   at random on every lookup. Until the round-8 fix the middleware made three lookups with the header's value - samples
+   service, time_series service, profile service (whose node gives the cache view) -: three independent draws. Now the node of
+   the first lookup is used for the other two. [d1 d2 d3] are the draws the registry would make. *)
+Definition choose_before_fix (dsn : option cnode) (d1 d2 d3 : cnode) : cnode * cnode * cnode :=
+  match dsn with Some n => (n, n, n) | None => (d1, d2, d3) end.
+Definition choose_one_node (dsn : option cnode) (d1 d2 d3 : cnode) : cnode * cnode * cnode :=
+  match dsn with Some n => (n, n, n) | None => (d1, d1, d1) end.
+
+Section SPLIT.
+  Variable pfx : cnode -> string.
+  (* one push handled alone whose samples go to [nspl], whose series rows go to [nts], parsed against and confirmed in the
+     cache view of [ncv] (doParse: FPCache.DB(node) with node = the profile service's node) *)
+  Definition split_push (ms : mstate) (nspl nts ncv : cnode) (ss : list stream) (ts_ok spl_ok : bool) : mstate :=
+    let f := begin_req (nview pfx ms ncv) ss in
+    let g := send_chunk f ts_ok spl_ok in
+    let ack := f_ok g in
+    let t := m_st ms (n_node nts) in
+    let st1 := upd (m_st ms) (n_node nts)
+                   {| cache := cache t; ts_rows := store_chunk (ts_rows t) f ts_ok; acked := acked t; pending := pending t |} in
+    let s := st1 (n_node nspl) in
+    let st2 := upd st1 (n_node nspl)
+                   {| cache := cache s; ts_rows := ts_rows s; acked := if ack then f_done g ++ acked s else acked s; pending := pending s |} in
+    {| m_cache := put_view (pfx ncv) (if ack then f_ann g ++ cview (pfx ncv) (m_cache ms) else cview (pfx ncv) (m_cache ms)) (m_cache ms);
+       m_st := st2 |}.
+  Definition choice_push (choose : option cnode -> cnode -> cnode -> cnode -> cnode * cnode * cnode)
+             (ms : mstate) (dsn : option cnode) (d1 d2 d3 : cnode) (ss : list stream) (ts_ok spl_ok : bool) : mstate :=
+    let '(nspl, nts, ncv) := choose dsn d1 d2 d3 in split_push ms nspl nts ncv ss ts_ok spl_ok.
+End SPLIT.
+
 (* the history of ONE node: the actions sent to it, and every reset of the shared cache *)
 Fixpoint proj (name : string) (h : list mact) : list action :=
   match h with
